@@ -192,6 +192,8 @@ func rejectionKey(v verdict) string {
 			return "accepted-trailing-bytes"
 		}
 		return "accepted-bad-crc"
+	case v.CRCOK && strings.Contains(v.Struct.Error(), "format version"):
+		return "accepted-unknown-format"
 	case v.CRCOK:
 		return "accepted-incomplete-structure"
 	}
